@@ -53,6 +53,7 @@ type Emitter struct {
 	declared map[string]bool
 	inQuant  int
 	stores   map[string]*storeRec
+	defs     map[string]string
 }
 
 // storeRec remembers that heap version name = store(prev, base, idx.., val),
@@ -65,7 +66,7 @@ type storeRec struct {
 }
 
 func newEmitter() *Emitter {
-	return &Emitter{declared: map[string]bool{}, stores: map[string]*storeRec{}}
+	return &Emitter{declared: map[string]bool{}, stores: map[string]*storeRec{}, defs: map[string]string{}}
 }
 
 func (e *Emitter) fresh(hint string) string {
@@ -104,6 +105,7 @@ func (e *Emitter) define(hint, sort, term string) string {
 	n := e.fresh(hint)
 	e.declare(n, sort)
 	e.items = append(e.items, item{line: fmt.Sprintf("(assert (= %s %s))", n, term)})
+	e.defs[n] = term
 	return n
 }
 
